@@ -140,12 +140,52 @@ func c07guard(p *Prog, r *Report) {
 	if len(actions) < 2 {
 		r.Fail(rule, "InsertEvent:actions", p.pos(fn.Pos()), fnName(fn), "expected a Store.SetEvent call and a store to UndeterminedEvents in InsertEvent")
 	}
+	cspFn := p.Func(HG, "Hashgraph", "checkSelfParent")
+	copFn := p.Func(HG, "Hashgraph", "checkOtherParent")
 	for i, a := range actions {
 		for k, q := range preds {
+			if (k == 1 && cspFn == nil) || (k == 2 && copFn == nil) {
+				continue // the helper was merged into InsertEvent: decided by the composite obligation below
+			}
 			ok, _ := p.allPaths(a, []Pred{q}, all(1))
 			r.Check(ok, rule, "InsertEvent:"+labels[i]+":"+names[k], p.ipos(a), fnName(fn),
 				"every path to the action passes "+names[k],
 				"some path reaches "+labels[i]+" without "+names[k])
+		}
+	}
+	// the same obligation stated on the underlying conditions, wherever they are written (in the
+	// helpers — the path engine looks into them — or directly in InsertEvent):
+	//   other-parent: otherParent == "" or Store.GetEvent(otherParent) succeeded
+	{
+		isOP := func(x ssa.Value) bool {
+			if _, _, ok := isCallTo(x, named(HG+".Event.OtherParent")); ok {
+				return true
+			}
+			fv, _ := fieldOf(x)
+			return fv != nil && refName(fv) == "Parents"
+		}
+		qNone := func(l Lit) bool {
+			b, ok := l.V.(*ssa.BinOp)
+			if !ok || l.Nil || !((b.Op == token.EQL && l.Pos) || (b.Op == token.NEQ && !l.Pos)) {
+				return false
+			}
+			sx, okx := strConst(b.X)
+			sy, oky := strConst(b.Y)
+			return (oky && sy == "" && dependsOn(b.X, isOP)) || (okx && sx == "" && dependsOn(b.Y, isOP))
+		}
+		qKnown := func(l Lit) bool {
+			c, ok := errNilLit(l, storeM("GetEvent"))
+			if !ok {
+				return false
+			}
+			args := c.Call.Args
+			return len(args) > 0 && dependsOn(args[len(args)-1], isOP)
+		}
+		for i, a := range actions {
+			ok, _ := p.allPaths(a, []Pred{qNone, qKnown}, func(m uint32) bool { return m != 0 })
+			r.Check(ok, rule, "InsertEvent:"+labels[i]+":other-parent-empty-or-known", p.ipos(a), fnName(fn),
+				"every path to the action established otherParent == \"\" or Store.GetEvent(otherParent) ok",
+				"some path reaches "+labels[i]+" although the other-parent is neither empty nor found in the store")
 		}
 	}
 
@@ -161,7 +201,7 @@ func c07guard(p *Prog, r *Report) {
 				_ = c
 				return true
 			}
-			if fv, _ := fieldOf(x); fv != nil && fv.Name() == "Parents" {
+			if fv, _ := fieldOf(x); fv != nil && refName(fv) == "Parents" {
 				return true
 			}
 			return false
@@ -244,7 +284,7 @@ func c07guard(p *Prog, r *Report) {
 					return true
 				}
 				fv, _ := fieldOf(x)
-				return fv != nil && fv.Name() == "Creator"
+				return fv != nil && refName(fv) == "Creator"
 			}) && dependsOn(a, func(x ssa.Value) bool { return x == ev })
 			r.Check(ok, rule, "checkSelfParent:LastEventFrom(creator)", p.ipos(c), fnName(csp), "LastEventFrom is asked for the event's own creator", "LastEventFrom argument does not derive from event.Creator()")
 		}
@@ -253,14 +293,14 @@ func c07guard(p *Prog, r *Report) {
 	// checkOtherParent
 	cop := p.Func(HG, "Hashgraph", "checkOtherParent")
 	if cop == nil {
-		r.Anchor(rule, "hashgraph.(*Hashgraph).checkOtherParent")
+		r.Note("%s: checkOtherParent does not exist any more (merged into its caller): its obligation is decided on InsertEvent directly", rule)
 	} else {
 		isOP := func(x ssa.Value) bool {
 			if _, _, ok := isCallTo(x, named(HG+".Event.OtherParent")); ok {
 				return true
 			}
 			fv, _ := fieldOf(x)
-			return fv != nil && fv.Name() == "Parents"
+			return fv != nil && refName(fv) == "Parents"
 		}
 		qNone := func(l Lit) bool {
 			b, ok := l.V.(*ssa.BinOp)
@@ -334,7 +374,7 @@ func c07index(p *Prog, r *Report) {
 			return true
 		}
 		fv, _ := fieldOf(x)
-		return fv != nil && fv.Name() == "Index" && fv.Pkg() != nil && strings.HasSuffix(fv.Pkg().Path(), "/hashgraph")
+		return fv != nil && refName(fv) == "Index" && fv.Pkg() != nil && strings.HasSuffix(fv.Pkg().Path(), "/hashgraph")
 	}
 	// literal: equality (asserted true) between two Index-derived values where one side adds 1, or between an Index value and constant 0
 	qIdx := func(l Lit) bool {
@@ -541,7 +581,7 @@ func c07wire(p *Prog, r *Report) {
 			}
 			isIdx := dependsOn(b.X, func(x ssa.Value) bool {
 				fv, _ := fieldOf(x)
-				return fv != nil && strings.HasSuffix(fv.Name(), "ParentIndex")
+				return fv != nil && strings.HasSuffix(refName(fv), "ParentIndex")
 			})
 			if !isIdx {
 				return false
@@ -622,7 +662,7 @@ func c07verifyShape(p *Prog, r *Report) {
 		if okLoop {
 			// receiver derives from Body.InternalTransactions
 			recv := cv.Call.Args[0]
-			if !dependsOn(recv, func(x ssa.Value) bool { fv, _ := fieldOf(x); return fv != nil && fv.Name() == "InternalTransactions" }) {
+			if !dependsOn(recv, func(x ssa.Value) bool { fv, _ := fieldOf(x); return fv != nil && refName(fv) == "InternalTransactions" }) {
 				okLoop = false
 				detail = "verified value does not come from Body.InternalTransactions"
 			}
@@ -718,10 +758,10 @@ func verifyProvenance(p *Prog, r *Report, rule string, which []string) {
 		}
 		for _, c := range vs {
 			a := c.Common().Args
-			okKey := dependsOn(a[0], func(x ssa.Value) bool { fv, _ := fieldOf(x); return fv != nil && fv.Name() == spec.keyField })
+			okKey := dependsOn(a[0], func(x ssa.Value) bool { fv, _ := fieldOf(x); return fv != nil && refName(fv) == spec.keyField })
 			okHash := dependsOn(a[1], func(x ssa.Value) bool { _, _, ok := isCallTo(x, spec.hashM); return ok })
-			okSig := dependsOn(a[2], func(x ssa.Value) bool { fv, _ := fieldOf(x); return fv != nil && fv.Name() == spec.sigField }) &&
-				dependsOn(a[3], func(x ssa.Value) bool { fv, _ := fieldOf(x); return fv != nil && fv.Name() == spec.sigField })
+			okSig := dependsOn(a[2], func(x ssa.Value) bool { fv, _ := fieldOf(x); return fv != nil && refName(fv) == spec.sigField }) &&
+				dependsOn(a[3], func(x ssa.Value) bool { fv, _ := fieldOf(x); return fv != nil && refName(fv) == spec.sigField })
 			// every possibly-true return derives from this keys.Verify
 			okRet := true
 			for _, rp := range p.succRets(spec.fn, boolTrue, 0) {
